@@ -64,6 +64,8 @@ def rule_R2(ctx, prj, w):
         elif kind == "language-supported":
             seen_lang = True
             ctx.ok("R2", fi.site(g.test), f"scan_path: analysed only if {unparse(g.test)}")
+        elif kind in ("not-hidden", "flag"):
+            continue
         elif kind in ("excluded-only", "language-unsupported-only"):
             ctx.viol("R2", f"scan_path/{kind}", fi.site(g.test), f"the analysing call runs only when {unparse(g.test)} is {g.polarity}: selection inverted")
         else:
@@ -192,7 +194,8 @@ def rule_R3(ctx, prj):
     want = {"codelimit.__main__:scan": "exclude", "codelimit.__main__:check": "exclude", "codelimit.common.Configuration:Configuration.load": '"exclude"'}
     for q, what in want.items():
         f2 = prj.func(q)
-        feeds = [n for ff, n, k in writes if ff == f2 and k == "accumulate"]
+        reach = {f2.qual} | {x for x in prj.callgraph.reachable([f2.qual]) if x.startswith(("codelimit.__main__", "codelimit.common.Configuration"))}
+        feeds = [n for ff, n, k in writes if ff.qual in reach and k == "accumulate"]
         if not feeds:
             ctx.viol("R3", f"{f2.local}/exclude-source", f2.site(), f"{f2.local} no longer feeds its {what} value into Configuration.exclude")
 
@@ -245,11 +248,29 @@ def rule_R4(ctx, prj):
     cc = prj.func("codelimit.common.utils:calculate_checksum")
     opens = [c for c in cc.calls() if attr_chain(c.func) == "open"]
     binmode = any(len(c.args) > 1 and const_str(c.args[1]) == "rb" or any(k.arg == "mode" and const_str(k.value) == "rb" for k in c.keywords) for c in opens)
-    reads = [c for c in cc.calls() if isinstance(c.func, ast.Attribute) and c.func.attr == "read" and not c.args]
-    if binmode and reads:
-        ctx.ok("R4", cc.site(), "calculate_checksum hashes the complete bytes of the file (open 'rb', read())")
+    reads = [c for c in cc.calls() if isinstance(c.func, ast.Attribute) and c.func.attr in ("read", "read_bytes") and not c.args]
+    chunked = [c for c in cc.calls() if isinstance(c.func, ast.Attribute) and c.func.attr == "read" and c.args]
+    looped = [c for c in chunked if enclosing(cc, c, (ast.For, ast.While)) or any(
+        isinstance(p, ast.Lambda) for p in _anc(cc, c)) and any(attr_chain(x.func) == "iter" for x in cc.calls())]
+    updates = [c for c in cc.calls() if isinstance(c.func, ast.Attribute) and c.func.attr == "update"]
+    pathread = [c for c in cc.calls() if isinstance(c.func, ast.Attribute) and c.func.attr == "read_bytes"]
+    if (binmode or pathread) and reads and not chunked:
+        ctx.ok("R4", cc.site(), "calculate_checksum hashes the complete bytes of the file (binary read())")
+    elif binmode and chunked and len(looped) == len(chunked) and updates:
+        ctx.ok("R4", cc.site(), "calculate_checksum hashes the complete bytes of the file (binary, chunked read in a loop feeding update())")
+    elif chunked and not looped:
+        ctx.viol("R4", "calculate_checksum/bytes", cc.site(chunked[0]), f"calculate_checksum reads only {unparse(chunked[0])} once: files that differ after that prefix get the same checksum")
+    elif opens and not binmode and not pathread:
+        ctx.viol("R4", "calculate_checksum/bytes", cc.site(), "calculate_checksum does not read the file in binary mode: the checksum is of decoded text, and undecodable files raise")
     else:
-        ctx.viol("R4", "calculate_checksum/bytes", cc.site(), "calculate_checksum does not hash the complete binary content of the file")
+        raise AnalysisError(f"{cc.disp}: how the file content reaches the hash is not recognised")
+
+
+def _anc(fi, node):
+    cur = node
+    while cur in fi.parents:
+        cur = fi.parents[cur]
+        yield cur
 
 
 WHO = {
